@@ -22,8 +22,9 @@ def chars(name: str) -> List[str]:
     return list(name)
 
 
-def model(pool: List[str], max_sibs: int, is_dir: bool, kind: str, *, no_combine=False, d8=True, d9=True, emit=True):
+def model(pool: List[str], max_sibs: int, is_dir: bool, kind: str, *, no_combine=False, d8=True, d9=True, emit=True, fixed=None):
     return tlc.prepare("Names", dict(Pool=[chars(n) for n in pool], MaxSiblings=max_sibs, IsDir=is_dir, NoCombine=no_combine,
+                                     FixedSeqs=tlc.SetOf([list(q) for q in (fixed or [])]),
                                      ImageKind=kind, CountersGloballyUnique=d8, StemCollisionHandled=d9, EmitCases=emit),
                        invariants=INVS)
 
